@@ -367,7 +367,9 @@ def gen_seq(rng, T, depth_left, nitems, opts):
             r = rng.random()
             seps.append('' if r < 0.6 else (' + ' if r < 0.8 else rng.choice([' ', ' ', '  '])))
     f = dict(items=items, seps=seps)
-    if opts.get('avoid_known'):
+    if opts.get('noplus'):
+        _no_operators(f)
+    elif opts.get('avoid_known'):
         _avoid_known(f)
     return f
 
@@ -381,6 +383,27 @@ def _avoid_known(f):
             if it['cf'] == 'i' and i < len(items) - 1 and ('+' in seps[i] or items[i + 1]['k'] == 'gr'):
                 it['cf'] = 'x'
                 seps[i] = ' + '
+
+
+def _no_operators(f):
+    """short notation only (no explicit ' + ' / ' * ', needed inside '<...>' of a material string) and none of the
+    places that trigger the recorded C10 defect: a multiplied group directly followed by a group gets a species between"""
+    items, seps = f['items'], f['seps']
+    for i, it in enumerate(items):
+        if it['cf'] == 'x':
+            it['cf'] = 'i'
+        if it['k'] == 'gr':
+            _no_operators(it)
+    for i in range(len(seps)):
+        if '+' in seps[i]:
+            seps[i] = ''
+    i = 0
+    while i < len(items) - 1:
+        if items[i]['k'] == 'gr' and items[i]['cf'] == 'i' and items[i + 1]['k'] == 'gr':
+            items[i], items[i + 1] = items[i + 1], items[i]      # '(A)2(B)' -> '(B)(A)2'; if both multiplied drop one multiplier
+            if items[i]['cf'] == 'i':
+                items[i]['n'], items[i]['cf'] = 1, 'n'
+        i += 1
 
 
 def gen_formula(rng, T, opts=None):
